@@ -106,6 +106,13 @@ func crashCases() []crashCase {
 		pollCase("poll-failed", []string{"failed"}, false),
 		pollCase("checkstate-paid", []string{"succ"}, true),
 		pollCase("checkstate-failed", []string{"failed"}, true),
+		{"restart-after-fee-changing-rotation", nil, func(e *schedEnv, _ []string) crashBuilt {
+			// the active keyset was created by a runtime rotation with a fee that differs from the configured one: after
+			// ANY restart every keyset must come back with its own stored fee (safety: "the keysets are unchanged")
+			e.s.OpRotate(100)
+			ys := []YQuery{{Y: YOf("no-such-secret")}}
+			return crashBuilt{kind: "noop", run: func() { e.s.OpCheckState(ys, nil) }}
+		}},
 		{"rotate", nil, func(e *schedEnv, _ []string) crashBuilt {
 			return crashBuilt{kind: "rotate", run: func() { e.s.OpRotate(100) }}
 		}},
@@ -404,7 +411,7 @@ func (e *schedEnv) runCrashPoint(cs crashCase, k int, fault bool) (reached bool,
 		cs.name = "melt"
 	}
 	e.verdict(cs, mode, point, verdict, what, s.replay())
-	return true, verdict != "ok" || len(captured) > 0 || len(c.Res.Disagreements) > dis0
+	return true, verdict != "ok" || len(captured) > 0 || len(c.Res.Disagreements) > dis0 || b.kind == "noop"
 }
 
 // sigName: the operation as it appears in finding signatures (variants of one operation that only differ in the
